@@ -18,6 +18,10 @@ class Verifier:
         self.specs = specs
         self.col = collector
         self.hooks = []         # callables(ex) installing engine hooks
+        self.tier = 'quick'     # contracts marked tier='thorough' are verified in the thorough tier only
+
+    def in_tier(self, con):
+        return con.opts.get('tier') != 'thorough' or self.tier == 'thorough'
 
     def new_exec(self):
         return Exec(self.repo, self.specs, self.col)
@@ -26,7 +30,7 @@ class Verifier:
         "independent pieces of work for one target: (contract name, instance) pairs of its verified contracts"
         out = []
         for con in self.specs.contracts.get(target, []):
-            if con.opts.get('trusted'):
+            if con.opts.get('trusted') or not self.in_tier(con):
                 continue
             for inst in (con.opts.get('instances') or [con.opts.get('instance', 'scaled')]):
                 out.append((con.name, inst))
@@ -49,6 +53,9 @@ class Verifier:
                 continue
             if con.opts.get('trusted'):
                 self.col.notes.append({'trusted_contract': target, 'reason': con.opts.get('trusted')})
+                continue
+            if not self.in_tier(con):
+                self.col.notes.append({'thorough_only_contract': target, 'contract': con.name})
                 continue
             self.verify(info, con)
 
